@@ -10,6 +10,7 @@ import SctpVerif.Driver.PendQ
 import SctpVerif.Driver.RingQ
 import SctpVerif.Driver.Reasm
 import SctpVerif.Driver.Codec
+import SctpVerif.Driver.Sapi
 import SctpVerif.Driver.Rs
 /-!
 Driver: replays implementation logs (`<comp> <op…> -> <impl result>`) through the L0 models and
@@ -39,6 +40,7 @@ structure All where
   ringq : RingQ.St := {}
   reasm : Reasm.St := {}
   codec : Cdc.St := {}
+  sapi : Drv.Sapi.St := {}
   rs : RsD.St := {}
   desync : List String := []
   cnt : Counters := {}
@@ -66,6 +68,7 @@ def stepComp (a : All) (comp : String) (op impl : List String) : All × Option S
   | "ringq" => let (s, r, e) := RingQ.step a.ringq op impl; ({ a with ringq := s }, some r, e.toList)
   | "reasm" => let (s, r, e) := Reasm.step a.reasm op impl; ({ a with reasm := s }, some r, e.toList)
   | "codec" => let (s, r, e) := Cdc.step a.codec op impl; ({ a with codec := s }, some r, e.toList)
+  | "sa" => let (s, r, v) := Drv.Sapi.step a.sapi op impl; ({ a with sapi := s }, r, v)
   | "rs" => let (s, r, v) := RsD.step a.rs op impl; ({ a with rs := s }, r, v)
   | _ => (a, some "unknown-component", [])
 
